@@ -2,11 +2,11 @@
    ExtrOcamlBasic only: bool, option, unit, prod, list, sumbool map to OCaml's own types;
    nat, positive, Z stay the extracted inductive types.  No Extract Constant of ours. *)
 From Coq Require Import Extraction ExtrOcamlBasic.
-From FV Require StoreP StoreB StoreQ SrcFragments TieB TBuffer TFleet TBelt Kernel World Factory Conserve.
+From FV Require StoreP StoreB StoreQ SrcFragments Lens TBuffer TFleet TBelt Kernel World Factory Conserve.
 Extraction Language OCaml.
 Separate Extraction StoreP.step StoreP.init StoreP.run_trace
   StoreB.step StoreB.init StoreB.run_trace
-  TieB.lensB TieB.lensP SrcFragments TBuffer.tstep TBuffer.tinit TFleet.fstep TFleet.finit TBelt.bstep TBelt.binit TBelt.gate
+  Lens.lensB Lens.lensP SrcFragments TBuffer.tstep TBuffer.tinit TFleet.fstep TFleet.finit TBelt.bstep TBelt.binit TBelt.gate
   StoreQ.qstep StoreQ.qinit StoreQ.qrun_trace
   Factory.mk_world Factory.run_until Factory.finalize_node Factory.finalize_edge Factory.fstep
   World.node0 World.edge0 Kernel.res_init
